@@ -113,6 +113,9 @@ func (u *Unit) havocAllPred(a *Term) *Term {
 	if k == 1 && r.K <= -1000000 && r.K > -4500000 {
 		return u.C.False
 	}
+	if k == 1 && r.K > 0 && u.privateObj[r.K] {
+		return u.C.False // a local variable that only a deferred closure of this function shares
+	}
 	return u.C.True
 }
 
@@ -756,6 +759,18 @@ func (fr *frame) runLoop(l *loop, ins []edge, incoming map[*ssa.BasicBlock][]edg
 		}
 	}
 	u.havocRegion(st1, lreg, lname)
+	for b := range l.blocks {
+		for _, in := range b.Instrs {
+			if sto, ok := in.(*ssa.Store); ok {
+				if a, ok := sto.Addr.(*ssa.Alloc); ok && fr.private[a] && !l.blocks[a.Block()] {
+					if at, ok := fr.vals[a].(*Term); ok {
+						t := a.Type().(*types.Pointer).Elem()
+						u.store(st1, at, t, u.symVal(u.freshName("L_"+a.Comment), t, false))
+					}
+				}
+			}
+		}
+	}
 	u.assumeLemmas(bc, fr, st1, l.ordinal, l.header)
 	env1 := fr.specEnv(bc, st1)
 	env1.ctx = l.header
